@@ -252,17 +252,12 @@ class Neo4jPropertyGraph(ABCPropertyGraph):
         assert node_id is not None
         assert props is not None
 
-        all_props = ""
-        for k, v in props.items():
-            all_props += f"{k}: '{v}', "
-        if len(all_props) > 2:
-            all_props = all_props[:-2]
-
-        query = f"MATCH (s:GraphNode {{GraphID: $graphId, NodeID: $nodeId}}) " \
-            f"SET s+= {{ {all_props} }} RETURN properties(s)"
+        query = "MATCH (s:GraphNode {GraphID: $graphId, NodeID: $nodeId}) " \
+                "SET s+= $props RETURN properties(s)"
 
         with self.driver.session() as session:
-            val = session.run(query, graphId=self.graph_id, nodeId=node_id)
+            val = session.run(query, graphId=self.graph_id, nodeId=node_id,
+                              props={k: str(v) for k, v in props.items()})
             if val is None or len(val.value()) == 0:
                 raise PropertyGraphQueryException(graph_id=self.graph_id,
                                                   node_id=node_id,
